@@ -74,8 +74,15 @@ def drive_(a, rng, opts=None, samples=None):
     rout = rg.tree_sequence().simplify(samples, **kw).dump_tables()
     why = abstr.ragged_consistent(sts.dump_tables(), rout, cleared)
     # the TableCollection entry point gives the same tables and the same node map
+    # ... also when options that have their default value are left out of the call (the documented defaults are part of the interface)
+    kw_sparse = {k: v for k, v in kw.items() if v != bool(DEFAULTS[k]) or rng.random() < 0.4}
     tfac = ts.dump_tables()
-    nm2 = tfac.simplify(samples, record_provenance=False, **kw)
+    nm2 = tfac.simplify(samples, record_provenance=False, **kw_sparse)
+    if not why:
+        t_sp = ts.simplify(samples, record_provenance=False, **kw_sparse).dump_tables()
+        t_full = sts.dump_tables()
+        if not t_sp.equals(t_full, ignore_provenance=True):
+            why = "TreeSequence.simplify with default-valued options left out differs from the call that spells them out: %s" % sorted(set(kw) - set(kw_sparse))
     t_ref = sts.dump_tables()
     t_ref.provenances.clear()
     tfac.provenances.clear()
